@@ -89,9 +89,9 @@ def gen_history(ctx, rng, tier, faults, force=None):
         warm = full_warm(ctx)
     bases = [g.base() for _ in range(rng.randint(1, 3))]
     if faults:
-        weights = {'call': 34, 'repeat': 14, 'alias': 8, 'mutate_result': 13, 'mutate_arg': 8, 'bad_call': 8, 'interrupt': 15}
+        weights = {'call': 32, 'repeat': 13, 'alias': 8, 'mutate_result': 13, 'mutate_arg': 8, 'bad_call': 8, 'interrupt': 14, 'recycle': 4}
     else:
-        weights = {'call': 60, 'repeat': 26, 'alias': 14}
+        weights = {'call': 58, 'repeat': 24, 'alias': 12, 'recycle': 6}
     ops = []
     callish = []            # ids of ops that executed a call
     for i in range(L):
@@ -113,6 +113,24 @@ def gen_history(ctx, rng, tier, faults, force=None):
             else:
                 op['op'] = 'call'
                 op.update(_usable_call(g, ctx, mix, None))
+        elif kind == 'recycle':
+            # an earlier call that passed a list or dict; same function, new content
+            cands = [j for j in callish if 'f' in ops[j] and any(a[0] in ('L', 'D') for a in ops[j]['a'])]
+            if cands:
+                j = rng.choice(cands)
+                op['ref'] = j
+                c = None
+                for _ in range(6):
+                    c = g.call(mix, rng.choice(bases), fname=ops[j]['f'])
+                    if ctx.usable(c) and ctx.oracle(c)['steps'] <= 400_000:
+                        break
+                    c = None
+                if c is None:
+                    c = {'f': ops[j]['f'], 'a': copy.deepcopy(ops[j]['a'])}
+                op.update(c)
+            else:
+                op['op'] = kind = 'call'
+                op.update(_usable_call(g, ctx, mix, rng.choice(bases)))
         elif kind == 'alias':
             op['ref'] = rng.choice(callish)
         elif kind in ('mutate_result', 'mutate_arg'):
@@ -134,7 +152,7 @@ def gen_history(ctx, rng, tier, faults, force=None):
                     k = rng.choice(locs[rng.choice(sorted(locs))])
             op['k'] = k
             op['exc'] = rng.choice(['KeyboardInterrupt', 'KeyboardInterrupt', 'MemoryError'])
-        if op['op'] in ('call', 'repeat', 'bad_call', 'interrupt', 'alias'):
+        if op['op'] in ('call', 'repeat', 'bad_call', 'interrupt', 'alias', 'recycle'):
             callish.append(i)
         ops.append(op)
     return {'ops': ops, 'warm': warm, 'fingerprint': True,
@@ -206,6 +224,7 @@ def run_one(ctx, run_seed, tier, faults, force=None):
         'landed': sum(1 for r in recs if r.get('landed')),
         'landed_locs': sorted({r['loc'] for r in recs if r.get('landed') and r.get('loc')}),
         'mut_applied': sum(1 for r in recs if r.get('applied')),
+        'recycled': sum(1 for r in recs if r.get('recycled')),
         'raised': sum(1 for r in calls if r['outcome'][0] == 'exc' and not r.get('landed')),
         'funcs': sorted({r['f'] for r in calls}),
         'probes': out.get('probes') or {},
@@ -291,7 +310,7 @@ def minimise(ctx, spec, out, viol, max_runs=300, max_s=90.0):
         if not budget.ok():
             break
         op = state['spec']['ops'][idx]
-        if op['op'] in ('interrupt', 'repeat', 'bad_call') and 'f' in op:
+        if op['op'] in ('interrupt', 'repeat', 'bad_call', 'recycle') and 'f' in op:
             s3 = copy.deepcopy(state['spec'])
             s3['ops'][idx] = {'op': 'call', 'id': op['id'], 'f': op['f'], 'a': op['a']}
             g3 = attempt(s3)
